@@ -157,8 +157,40 @@ class Recorder:
                 return res
             return unify_types
 
+        def w_direct(orig):
+            def _compute_type_variable_assignments(type_parameters, types, type_var_map=None, variance_choices=None,
+                                                   for_type_constructor=True):
+                is_top = R.depth == 0
+                pre = None
+                if is_top:
+                    # called directly by the generator (method of a generic class: class + method parameters together)
+                    pre = {
+                        'con': '<direct call of _compute_type_variable_assignments>',
+                        'params': [(p.name, rm.var_str(p.variance), R.term(p.bound)) for p in type_parameters],
+                        'pre': {getattr(k, 'name', '?'): R.term(v) for k, v in (type_var_map or {}).items()},
+                        'vc': None if variance_choices is None else
+                        {getattr(k, 'name', '?'): tuple(v) for k, v in variance_choices.items()},
+                        'flags': (False, False, False),
+                        'dis': (bool(cfg.dis.use_site_variance), bool(cfg.dis.use_site_contravariance)),
+                        'ntypes': len(types), 'direct': True,
+                    }
+                R.depth += 1
+                try:
+                    res = orig(type_parameters, types, type_var_map, variance_choices, for_type_constructor)
+                finally:
+                    R.depth -= 1
+                if is_top and res is not None:
+                    t_args, m = res
+                    pre['args'] = [R.term(a) for a in t_args]
+                    pre['prim_args'] = [bool(getattr(a, 'primitive', False)) for a in t_args]
+                    pre['map'] = {getattr(k, 'name', '?'): R.term(v) for k, v in (m or {}).items()}
+                    R.add('inst', pre)
+                return res
+            return _compute_type_variable_assignments
+
         if 'inst' in self.kinds:
             patch(tu, 'instantiate_type_constructor', w_inst)
+            patch(tu, '_compute_type_variable_assignments', w_direct)
         if 'instf' in self.kinds:
             patch(tu, 'instantiate_parameterized_function', w_instf)
         if 'find_subtypes' in self.kinds:
